@@ -256,9 +256,9 @@ def onReq (w : W) (opReqs : List Req) (j : Judge) : Req → Judge × List String
     let fresh := match addedAt with | some x => x.2.1 == j.opIdx | none => run.snap.isNone || run.beginOp == j.opIdx
     let own := ownReqs j.reqs rid
     let v04 :=
-      (if w.instRunning.getD i false then []
-       else if dist != .all && !fresh && w0.instRunning.getD i false then [s!"C04-not-rechecked:target-not-running:{p}>{i}"]
-       else [s!"C04-target-not-running:{p}>{i}"]) ++
+      -- no discount for a placement decided earlier: when an instance is lost the planned commands of a non-distributed
+      -- application leave it (`ApplicationStartJobs.on_instances_invalidation`)
+      (if w.instRunning.getD i false then [] else [s!"C04-target-not-running:{p}>{i}"]) ++
       (if known w p i then []
        else if dist != .all && !fresh && known w0 p i then [s!"C04-not-rechecked:program-disabled:{p}>{i}"]
        -- root cause of its own: the instance is taken from the selection made for the APPLICATION (`self.identifiers`: the
